@@ -7,6 +7,7 @@ import (
 	"go/token"
 	"os"
 	"path/filepath"
+	"regexp"
 	"sort"
 	"strings"
 )
@@ -32,6 +33,8 @@ func __fresh(x any) bool                                 { return true }
 func __elems(x any) any                                  { return x }
 func __replaytext(x []rune)                              {}
 func __samefn(a, b any) bool                             { return true }
+func __entry[T any](x T) T                               { return x }
+func __rangeindex() int                                  { return 0 }
 `
 }
 
@@ -112,29 +115,20 @@ func buildOverlay(pkgDir string) (*OverlayResult, error) {
 		}
 		byKey[c.Key] = c
 	}
-	entries, err := os.ReadDir(pkgDir)
+	pf, err := parsePkgFiles(pkgDir)
 	if err != nil {
 		return nil, err
 	}
-	fset := token.NewFileSet()
-	pkgName := ""
-	for _, e := range entries {
-		name := e.Name()
-		if e.IsDir() || !strings.HasSuffix(name, ".go") || strings.HasSuffix(name, "_test.go") {
-			continue
-		}
-		path := filepath.Join(pkgDir, name)
-		src, err := os.ReadFile(path)
-		if err != nil {
-			return nil, err
-		}
-		f, err := parser.ParseFile(fset, path, src, parser.ParseComments)
-		if err != nil {
-			return nil, fmt.Errorf("parse %s: %v", path, err)
-		}
-		if pkgName == "" {
-			pkgName = f.Name.Name
-		}
+	contracts = applyTemplates(contracts, pf.funcKeys)
+	res.Contracts = contracts
+	byKey = map[string]*Contract{}
+	for _, c := range contracts {
+		byKey[c.Key] = c
+	}
+	fset := pf.fset
+	pkgName := pf.pkgName
+	for _, file := range pf.files {
+		path, src, f := file.path, file.src, file.ast
 		var ins []insertion
 		for _, d := range f.Decls {
 			fd, ok := d.(*ast.FuncDecl)
@@ -150,6 +144,8 @@ func buildOverlay(pkgDir string) (*OverlayResult, error) {
 			var sb strings.Builder
 			// result names
 			resultName := "__ret0"
+			lastErr := lastErrName(fd, src, off)
+			res0 := firstResultType(fd, src, off)
 			if fd.Type.Results != nil {
 				k := 0
 				named := false
@@ -170,10 +166,14 @@ func buildOverlay(pkgDir string) (*OverlayResult, error) {
 				}
 			}
 			for _, r := range c.Requires {
-				fmt.Fprintf(&sb, " __requires(%s, func() bool { return %s });", quoteLabel(r.Label), specToGo(r.Text, resultName))
+				if txt, ok := substClause(r.Text, lastErr, res0); ok {
+					fmt.Fprintf(&sb, " __requires(%s, func() bool { return %s });", quoteLabel(r.Label), specToGo(txt, resultName))
+				}
 			}
 			for _, r := range c.Ensures {
-				fmt.Fprintf(&sb, " __ensures(%s, func() bool { return %s });", quoteLabel(r.Label), specToGo(r.Text, resultName))
+				if txt, ok := substClause(r.Text, lastErr, res0); ok {
+					fmt.Fprintf(&sb, " __ensures(%s, func() bool { return %s });", quoteLabel(r.Label), specToGo(txt, resultName))
+				}
 			}
 			if c.HasMod {
 				var locs []string
@@ -201,6 +201,25 @@ func buildOverlay(pkgDir string) (*OverlayResult, error) {
 			}
 			ins = append(ins, insertion{off(fd.Body.Lbrace) + 1, sb.String()})
 			loops := collectLoops(fd.Body)
+			if len(c.LoopInv) > 0 || len(c.LoopDec) > 0 {
+				for n, l := range loops {
+					if _, isFor := l.(*ast.ForStmt); !isFor {
+						continue
+					}
+					if lc := c.Loops[n+1]; lc != nil {
+						// explicit loop contract: the template's clauses are added to it
+						if !lc.merged {
+							lc.Invariants = append(append([]Clause(nil), c.LoopInv...), lc.Invariants...)
+							if len(lc.Decreases) == 0 {
+								lc.Decreases = c.LoopDec
+							}
+							lc.merged = true
+						}
+						continue
+					}
+					c.Loops[n+1] = &LoopContract{Invariants: c.LoopInv, Decreases: c.LoopDec, merged: true}
+				}
+			}
 			for n, lc := range c.Loops {
 				if n < 1 || n > len(loops) {
 					res.Problems = append(res.Problems, fmt.Sprintf("contract-target-missing: loop %d of %s (function has %d loops)", n, c.Key, len(loops)))
@@ -235,7 +254,7 @@ func buildOverlay(pkgDir string) (*OverlayResult, error) {
 		res.Files[path] = out
 	}
 	for _, c := range contracts {
-		if !c.Used {
+		if !c.Used && !c.IsTemplate {
 			res.Problems = append(res.Problems, fmt.Sprintf("contract-target-missing: func %s (%s:%d)", c.Key, c.File, c.Line))
 		}
 	}
@@ -243,4 +262,118 @@ func buildOverlay(pkgDir string) (*OverlayResult, error) {
 		res.Files[filepath.Join(pkgDir, markerFile)] = []byte(markerSource(pkgName))
 	}
 	return res, nil
+}
+
+type parsedFile struct {
+	path string
+	src  []byte
+	ast  *ast.File
+}
+
+type parsedPkg struct {
+	fset     *token.FileSet
+	files    []parsedFile
+	pkgName  string
+	funcKeys []string
+}
+
+func parsePkgFiles(pkgDir string) (*parsedPkg, error) {
+	entries, err := os.ReadDir(pkgDir)
+	if err != nil {
+		return nil, err
+	}
+	pp := &parsedPkg{fset: token.NewFileSet()}
+	for _, e := range entries {
+		name := e.Name()
+		if e.IsDir() || !strings.HasSuffix(name, ".go") || strings.HasSuffix(name, "_test.go") {
+			continue
+		}
+		path := filepath.Join(pkgDir, name)
+		src, err := os.ReadFile(path)
+		if err != nil {
+			return nil, err
+		}
+		f, err := parser.ParseFile(pp.fset, path, src, parser.ParseComments)
+		if err != nil {
+			return nil, fmt.Errorf("parse %s: %v", path, err)
+		}
+		if pp.pkgName == "" {
+			pp.pkgName = f.Name.Name
+		}
+		pp.files = append(pp.files, parsedFile{path, src, f})
+		if name == contractFileName {
+			continue // specification functions are never template targets
+		}
+		for _, d := range f.Decls {
+			if fd, ok := d.(*ast.FuncDecl); ok && fd.Body != nil {
+				pp.funcKeys = append(pp.funcKeys, funcKey(fd))
+			}
+		}
+	}
+	return pp, nil
+}
+
+// lastErrName: the name by which the last result can be referred to when it
+// is an error pointer ("lasterr" in template clauses); "" otherwise.
+func lastErrName(fd *ast.FuncDecl, src []byte, off func(token.Pos) int) string {
+	if fd.Type.Results == nil || len(fd.Type.Results.List) == 0 {
+		return ""
+	}
+	list := fd.Type.Results.List
+	last := list[len(list)-1]
+	typ := string(src[off(last.Type.Pos()):off(last.Type.End())])
+	if typ != "*errors.Error" {
+		return ""
+	}
+	if len(last.Names) > 0 {
+		return last.Names[len(last.Names)-1].Name
+	}
+	n := 0
+	for _, f := range list {
+		n++
+		_ = f
+	}
+	return fmt.Sprintf("__ret%d", n-1)
+}
+
+var lastErrRe = regexp.MustCompile(`\blasterr\b`)
+
+// substLastErr resolves the template placeholders of a clause: an optional
+// guard "[T]" (the clause applies only to functions whose first result has
+// the type text T) and "lasterr" (the trailing *errors.Error result).
+func substLastErr(text, name string) (string, bool) {
+	return substClause(text, name, "")
+}
+
+func substClause(text, name, res0 string) (string, bool) {
+	text = strings.TrimSpace(text)
+	if strings.HasPrefix(text, "[") {
+		if i := strings.Index(text, "]"); i > 0 {
+			ok := false
+			for _, alt := range strings.Split(text[1:i], "|") {
+				if strings.TrimSpace(alt) == res0 {
+					ok = true
+				}
+			}
+			if !ok {
+				return "", false
+			}
+			text = strings.TrimSpace(text[i+1:])
+		}
+	}
+	if !lastErrRe.MatchString(text) {
+		return text, true
+	}
+	if name == "" {
+		return "", false
+	}
+	return lastErrRe.ReplaceAllString(text, name), true
+}
+
+func firstResultType(fd *ast.FuncDecl, src []byte, off func(token.Pos) int) string {
+	if fd.Type.Results == nil || len(fd.Type.Results.List) == 0 {
+		return ""
+	}
+	f := fd.Type.Results.List[0]
+	return string(src[off(f.Type.Pos()):off(f.Type.End())])
 }
